@@ -789,6 +789,26 @@ func (e fixEvaluator) AlignThenCopy(c0, opOut *rlwe.Ciphertext, k uint64) {
 	opOut.Value[1].CopyLvl(c0.Level(), c0.Value[1])
 }
 
+// PARTIALFILL control: the mapped slots are written, the others keep the previous call's coefficients
+type coefTable struct{ vals []uint64 }
+
+func (c coefTable) Pick(mapping [][]int, coeffs []uint64) (vals []uint64) {
+	vals = c.vals
+	for i, cf := range coeffs {
+		for _, j := range mapping[i] {
+			vals[j] = cf
+		}
+	}
+	return
+}
+
+// PAIRSET control: real inputs set the real parts, the imaginary parts keep the previous call's values
+func fillReal(buff [][2]*big.Float, values []float64) {
+	for i := range values {
+		buff[i][0].SetFloat64(values[i])
+	}
+}
+
 // INDEG control: the first two components of the input, whatever its degree
 func (e fixEvaluator) SumTwo(ctIn, opOut *rlwe.Ciphertext) {
 	e.r.Add(ctIn.Value[0], ctIn.Value[1], opOut.Value[0])
